@@ -171,6 +171,7 @@ func runC06(w *core.World, r *core.Report) {
 	r.Rule("R4", "FLAG_TERMINATE test separates entry and every handler call from every handler call in Vm.Run; engine.exec stops before setCode when TERMINATE is set")
 	r.Rule("R5", "who may clear FLAG_TERMINATE with a constant reset: the no-op behind Run's test and the engine's session restart")
 	r.Rule("R6", "CATCH moves / CROAK purges exactly on the true edge of MatchFlag(decoded sig, decoded mode); MatchFlag is GetFlag(sig)==mode")
+	r.Rule("R7", "the library sets TERMINATE with a constant only behind a READIN-unset test (out of code outside input handling); CROAK itself never does")
 
 	fTerm, ok1 := constOf(w, r, "state", "FLAG_TERMINATE")
 	fLang, ok2 := constOf(w, r, "state", "FLAG_LANG")
@@ -351,6 +352,8 @@ func runC06(w *core.World, r *core.Report) {
 		}
 	}
 
+	checkDirtyBehindGate(w, r, "R4")
+
 	// ---- R5 ----------------------------------------------------------------------------------
 	nreset := 0
 	for _, fn := range w.LibFuncs {
@@ -387,6 +390,21 @@ func runC06(w *core.World, r *core.Report) {
 		}
 	}
 	r.Floor("R5", "constant TERMINATE resets", nreset, 2)
+
+	// ---- R7 ----------------------------------------------------------------------------------
+	if fRead, okR := constOf(w, r, "state", "FLAG_READIN"); okR {
+		nset := 0
+		for _, fn := range w.LibFuncs {
+			for _, c := range flagConstCalls(fn, fTerm, stSetFlag) {
+				nset++
+				unset, tests := flagTestEdges(fn, fRead, false)
+				ok, path := core.MustPass(c.(ssa.Instruction), core.NewCut().AddEdge(unset...))
+				r.Check(ok && len(tests) > 0, "R7", core.QName(fn)+": SetFlag(FLAG_TERMINATE)", c.Pos(), "only behind the READIN-unset edge",
+					"the library terminates the session on a path where input may be being handled: a CROAK (or other end of code) while reading input must go to the catch node instead: "+w.PathString(path))
+			}
+		}
+		r.Floor("R7", "constant TERMINATE sets", nset, 1)
+	}
 
 	// ---- R6 ----------------------------------------------------------------------------------
 	if mf := anchor(w, r, "state", "(*State).MatchFlag"); mf != nil {
